@@ -49,6 +49,34 @@ Theorem C11_no_extension_is_default : forall src, ParseTreeX gfm_none src = Pars
 Proof. exact none_is_default. Qed.
 Print Assumptions C11_no_extension_is_default.
 
+(* Linkify, the mechanism (partial: the parser side).  On a line with no ':' , no '@' and nowhere
+   "www." - the three conditions of the property - the Linkify inline parser of the GFM model
+   declines: no node, context untouched, reader where PeekLine left it; for ANY regular
+   expressions, tables and state.  What is NOT a theorem: that the driver's extra flush of the
+   pending text at every blank (Linkify sits on the blank trigger) leaves the rendering unchanged;
+   that half is decided on the implementation by the with/without comparison of this check. *)
+Require Import GM.model.Reader GM.model.InlineParse GM.model.InlineParseX GM.proofs.GfmLinkifyDeclines.
+Theorem C11_linkify_parser_declines_partial : forall punct_table email_table re_email_domain re_url re_www xs parent r line segment,
+  i_labels (t_c xs) = None ->
+  b_peek_line (t_r xs) = Ok (r, Some line, segment) ->
+  line <> nil -> no_linkify_trigger line ->
+  linkify_parse punct_table email_table re_email_domain re_url re_www xs parent = Ok (ist_r xs r, None).
+Proof. exact linkify_declines. Qed.
+Print Assumptions C11_linkify_parser_declines_partial.
+(* the statement about TREES is false for Linkify: "a b c" carries none of the triggers, the parser
+   never accepts, and yet the tree has two Text nodes instead of one, because the driver flushes
+   the pending text at every blank when a parser sits on the blank trigger; the output bytes are
+   equal under every renderer configuration.  Conservativity of Linkify is a statement about the
+   rendering only. *)
+Require Import GM.model.Html GM.model.GfmI.
+Theorem C11_linkify_tree_at_blank_refuted :
+  no_linkify_trigger abc /\
+  (forall xc, ParseTreeX (with_linkify xc true) abc <> ParseTreeX (with_linkify xc false) abc) /\
+  (forall xc u x h ta, ConvertModelX (with_linkify xc true) {| unsafe := u; xhtml := x; hardwraps := h; talign := ta |} abc
+                     = ConvertModelX (with_linkify xc false) {| unsafe := u; xhtml := x; hardwraps := h; talign := ta |} abc).
+Proof. exact linkify_tree_counterexample. Qed.
+Print Assumptions C11_linkify_tree_at_blank_refuted.
+
 (* ---------------- the same for the models of the other extension parsers (each on top of the
    default parser; compared with goldmark on every run: case kinds ParseTreeFn / ConvertFn,
    ParseTreeTD / ConvertTD).  For EVERY source:
